@@ -46,6 +46,11 @@ class _Extras:
         self.__dict__.setdefault("_journal", []).append(("blank", n))
         return n + 1
 
+    def lock(self, why: str = "") -> None:
+        """Re-defines an inherited public method, with a parameter of its own: the command is the subclass's."""
+        self.__dict__.setdefault("_journal", []).append(("lock", why))
+        super().lock()
+
     def half(self, n: int = 0) -> int:
         """Shrinks to 50% of %(what)s -- a percent sign in a docstring is text, not a format."""
         self.__dict__.setdefault("_journal", []).append(("half", n))
